@@ -159,21 +159,55 @@ def ap_raises(ctx, st, exc):
     ctx.oblige("raises", f"no-own-exception(got {exc.cls}@{exc.origin})", False)
 
 
-# ------------------------------------------------------------------------------------- set_target_value (plain target)
+# ------------------------------------------------------------------------------------- set_target_value
 def stv_setup(ctx):
+    kind = ["plain-argument", "class-argument-itself", "init_arg-of-one-class", "init_arg-of-a-list-of-classes", "init_arg-absent-from-cfg"][ctx.choose(5, "target-kind")]
     log = []
-    cfg = Rec("Namespace", methods={"__setitem__": lambda c, s_, a, k: log.append(("set", a[0], a[1])), "get": lambda c, s_, a, k: None,
-                                    "__contains__": lambda c, s_, a, k: True})
     value = z3.Int("value")
-    target_key = z3.String("target_key")
-    action = Rec("ActionLink", attrs={"target": (target_key, Rec("Action", attrs={"dest": target_key})), "option_strings": ["--t"]})
-    calls = {"ActionTypeHint.is_subclass_typehint": lambda c, a, k: False}
-    return Setup(env={"action": action, "value": value, "cfg": cfg, "logger": Rec("Logger")}, calls=calls, data=dict(log=log, value=value, key=target_key))
+    dest = "trainer.logger" if kind != "plain-argument" else "size"
+    child = "init_args.save_dir"
+    target_key = {"plain-argument": "size", "class-argument-itself": dest}.get(kind, dest + "." + child)
+    items = []
+    if kind == "init_arg-of-a-list-of-classes":
+        pattern = [[True, True], [True, False], [False, True], [False, False]][ctx.choose(4, "which-items-have-the-parameter")]
+        for i, has in enumerate(pattern):
+            st_ = {"init_args.save_dir": z3.Int(f"item{i}.old")} if has else {}
+            items.append(Rec("Namespace", attrs={"store": st_, "i": i}, methods={
+                "__contains__": lambda c, s_, a, k: a[0] in s_.attrs["store"],
+                "__setitem__": lambda c, s_, a, k: (s_.attrs["store"].__setitem__(a[0], a[1]), log.append(("item", s_.attrs["i"], a[0], a[1])))[1]}))
+    parent = list(items) if kind == "init_arg-of-a-list-of-classes" else Rec("Namespace", attrs={"tag": "single spec"})
+    in_cfg = kind != "init_arg-absent-from-cfg"
+    cfg = Rec("Namespace", methods={"__setitem__": lambda c, s_, a, k: log.append(("cfg", a[0], a[1])), "get": lambda c, s_, a, k: parent,
+                                    "__contains__": lambda c, s_, a, k: in_cfg})
+    target_action = Rec("ActionTypeHint", attrs={"dest": dest}, methods={"_check_type": lambda c, s_, a, k: log.append(("check_type", a[0]))})
+    action = Rec("ActionLink", attrs={"target": (target_key, target_action), "option_strings": ["--t"]})
+    calls = {"ActionTypeHint.is_subclass_typehint": lambda c, a, k: kind != "plain-argument"}
+    consts = {"Namespace": ClassRef("Namespace")}
+    return Setup(env={"action": action, "value": value, "cfg": cfg, "logger": Rec("Logger", methods={"debug": lambda c, s_, a, k: None})}, calls=calls, consts=consts,
+                 data=dict(kind=kind, log=log, value=value, key=target_key, items=items))
 
 
 def stv_post(ctx, st, result):
     d = st.data
-    ctx.oblige("post", "writes-exactly-the-target-key-with-the-value", len(d["log"]) == 1 and d["log"][0][1] is d["key"] and d["log"][0][2] is d["value"])
+    log, kind = d["log"], d["kind"]
+    tag = f"[{kind}]"
+    cfg_writes = [e for e in log if e[0] == "cfg"]
+    item_writes = [e for e in log if e[0] == "item"]
+    if kind == "init_arg-of-a-list-of-classes":
+        have = [it.attrs["i"] for it in d["items"] if any(e[1] == it.attrs["i"] for e in item_writes) or "init_args.save_dir" in it.attrs["store"]]
+        with_param = [it.attrs["i"] for it in d["items"] if "init_args.save_dir" in it.attrs["store"]]
+        if with_param:
+            ctx.oblige("post", "list-of-classes:every-item-whose-class-has-the-parameter-receives-the-value(the others are left alone)" + tag,
+                       sorted(e[1] for e in item_writes) == sorted(with_param) and all(e[2] == "init_args.save_dir" and e[3] is d["value"] for e in item_writes) and not cfg_writes,
+                       note=f"items with the parameter {with_param}, written {[e[1] for e in item_writes]}")
+        else:
+            ctx.oblige("post", "list-of-classes-none-with-the-parameter:falls-back-to-the-key-itself" + tag, not item_writes)
+    elif kind == "init_arg-absent-from-cfg":
+        ctx.oblige("post", "a-target-that-is-not-in-the-configuration-is-left-alone" + tag, not cfg_writes and not item_writes)
+    else:
+        ctx.oblige("post", "writes-exactly-the-target-key-with-the-value" + tag, len(cfg_writes) == 1 and cfg_writes[0][1] == d["key"] and cfg_writes[0][2] is d["value"] and not item_writes)
+        if kind == "class-argument-itself":
+            ctx.oblige("post", "a-whole-class-argument-target-is-type-checked-first" + tag, [e for e in log if e[0] == "check_type"] == [("check_type", d["value"])])
 
 
 UNITS = [
@@ -184,10 +218,13 @@ UNITS = [
                   "no subcommand selected; sources are plain (non-subclass) arguments; compute_fn parameters are not mapping-typed",
                   "parser._check_value_key returns without changing cfg"]),
     Unit("C15", "jsonargparse._link_arguments:ActionLink.set_target_value", stv_setup, stv_post, ap_raises,
-         trusted=["precondition: the target is a plain (non-subclass) argument"]),
+         trusted=["ActionTypeHint.is_subclass_typehint tells class-typed targets (also lists of classes)"]),
 ]
 from contracts.core_units import dump_unit  # noqa: E402
 UNITS.append(dump_unit("C15"))
+
+from contracts.misc_units import replace_target_unit  # noqa: E402
+UNITS.append(replace_target_unit("C15"))
 
 VERIFIED_CALLEES = ("ActionLink.set_target_value",)
 LEVEL = "other"
